@@ -54,9 +54,11 @@ Definition parse_offset (s : bytes) : option (Z * N) :=
 (* Config.onoff.relaxed_header_parser: 1 on, 0 off, -1 warn; the code only tests it for (non)zero *)
 Definition relaxed_of (mode : Z) : bool := negb (mode =? 0)%Z.
 
-(* Http::One::Parser::WhitespaceCharacters() / DelimiterCharacters() in the given mode *)
-Definition cl_ws (relaxed : bool) : cset := if relaxed then cs_relaxed_Whitespace else cs_strict_Whitespace.
-Definition cl_delim (relaxed : bool) : cset := if relaxed then cs_relaxed_Delimiter else cs_strict_Delimiter.
+(* the white space findDigits skips and goodSuffix accepts *)
+(* since "fix: only SP and HTAB are trimmed around Content-Length and Transfer-Encoding values" both are
+   CharacterSet::WSP in every parser mode (the mode argument is kept for the callers) *)
+Definition cl_ws (relaxed : bool) : cset := cs_WSP.
+Definition cl_delim (relaxed : bool) : cset := cs_WSP.
 
 (* ---------------- ContentLengthInterpreter ---------------- *)
 (* headerWideProblem: 0 = nil, 1 = "Duplicate", 2 = "Conflicting" *)
@@ -184,6 +186,10 @@ Definition lookup_id (name : bytes) : hid :=
 Definition last_is (p : N -> bool) (l : bytes) : bool :=
   match rev l with c :: _ => p c | [] => false end.
 Definition ltrim (l : bytes) : bytes := snd (span c_isspace l).
+(* trimming with an arbitrary class; HttpHeaderEntry::parse trims SP/HTAB only around the framing fields *)
+Definition is_wsp (c : N) : bool := (c =? 32) || (c =? 9).
+Definition ltrim_by (p : N -> bool) (l : bytes) : bytes := snd (span p l).
+Definition rtrim_by (p : N -> bool) (l : bytes) : bytes := rev (snd (span p (rev l))).
 
 (* HttpHeaderEntry::parse(field_start, field_end, msgType); req = (msgType == hoRequest),
    the other owner modelled is hoReply *)
@@ -201,7 +207,8 @@ Definition entry_parse (relaxed req : bool) (field : bytes) : option entry :=
       | _ =>
         if negb (forallb cs_TCHAR name') then None
         else
-          let value := rtrim (ltrim after) in
+          let trimmable := match lookup_id name' with HOther => c_isspace | _ => is_wsp end in
+          let value := rtrim_by trimmable (ltrim_by trimmable after) in
           if 65534 <? lenN value then None
           else Some {| e_id := lookup_id name'; e_value := value |}
       end
